@@ -36,6 +36,24 @@ CLAIMED.update({
    note="Compiler and mail are stubs, sudo branch not taken; kills happen on simple-command boundaries and inside the two long-running children only; liveness is the bounded one-run form."),
 })
 
+CLAIMED.update({
+ "C06": dict(
+   category="fault_enumeration", design="DESIGN.md §3 C06",
+   technique="runtime monitoring: classified transcript of stateful device simulators over the enumerated product of interlock conditions",
+   text="The full product device type x front-end x 3 pending-change scenarios x 6 hostname variants x 5 marker variants x 7 PAN-OS HA constellations (1812 live runs) is executed against the simulators; where an interlock condition holds the transcript must hold no config-change and no save/commit event, exit != 0 and an ERROR>>> diagnostic, otherwise approve must apply exactly the reference run's changes and save.",
+   note="Simulators are written from the dialogue the tool expects and from device documentation; NSX reports neither hostname nor marker nor HA state, so only the works-normally clause applies there. A 1-in-25 sample runs under -race."),
+ "C09": dict(
+   category="fault_enumeration", design="DESIGN.md §3 C09",
+   technique="runtime monitoring with peer fault injection at every dialogue position; transcript + exit status + status/history oracle",
+   text="For 5 device types x {drc, do-approve approve, do-approve compare} x 3 scenarios a fault of every kind (error text, unexpected output, wrong echo, silent exit status, close, stall, HTTP 4xx/5xx, malformed body, status=error, commit/job FAIL) is injected at every ordinal position of the reference dialogue; after a delivered fault no later change/save may be sent, exit != 0, status FAILED/DIFF and history END: FAILED; on every run status OK requires no delivered fault, all commands accepted and a confirmed save.",
+   note="Output-type faults count only at steps whose answer is a verdict (login, hostname, retrieval, change, guard, save); the second half of a joined line cannot be stopped; dropped HTTP connections stay dead. Quick samples stalls (1 s each) at every 5th position."),
+ "C11": dict(
+   category="fault_enumeration", design="DESIGN.md §3 C11",
+   technique="runtime monitoring: absence of change/save events in the simulator transcript of compare runs, with faults at every position and interlock variants",
+   text="Compare runs (drc -C, do-approve compare) for all device types, 3 scenarios with differences, 5 interlock variants and a fault of each kind at every dialogue position; the transcript must contain no config-change and no save/commit event.",
+   note="State is initial config + accepted change events, so unchanged state equals no accepted change event. ASA terminal width is a session setting."),
+})
+
 PENDING = {
 }
 
